@@ -134,6 +134,60 @@ def validate_trace(trace, cfg="TraceCirc.cfg", spec="TraceCirc.tla", timeout_s=9
             "viols": viols, "states": states}
 
 
+STRICT_RE = re.compile(r'<<\s*"STRICT-(ACCEPTED|REJECTED)",\s*(\d+)(?:,\s*(\d+),\s*(\d+))?')
+
+
+def sample_scenarios(trace, out, maxlines, seed):
+    """Whole scenarios of `trace`, chosen at random (seeded), at most `maxlines` lines; all of them if maxlines is None."""
+    import random
+    sc, order = {}, []
+    for line in open(trace):
+        i = line.find('"sc":')
+        k = int(line[i + 5:line.find(",", i)])
+        if k not in sc:
+            sc[k] = []
+            order.append(k)
+        sc[k].append(line)
+    if maxlines is None:
+        pick = order
+    else:
+        rnd = random.Random(seed)
+        rnd.shuffle(order)
+        n, pick = 0, []
+        for k in order:
+            if n + len(sc[k]) > maxlines:
+                continue
+            pick.append(k)
+            n += len(sc[k])
+        pick.sort()
+    with open(out, "w") as f:
+        for k in pick:
+            f.writelines(sc[k])
+    return len(pick), sum(len(sc[k]) for k in pick)
+
+
+def strict_validate(trace, threads, timeout_s=3000):
+    """Step-relation validation (TraceCircStrict.tla): every line must be explained by an action of Circ.tla.
+    Returns dict(accepted, lines, matched, scenario, states)."""
+    meta = os.path.join(WORK, "tlc", "st_%d_%s" % (os.getpid(), hashlib.md5(trace.encode()).hexdigest()[:8]))
+    shutil.rmtree(meta, ignore_errors=True)
+    os.makedirs(meta, exist_ok=True)
+    cmd = ["timeout", str(timeout_s), "tlc", "-workers", "1", "-metadir", meta, "-cleanup", "-noGenerateSpecTE",
+           "-config", "TraceCircStrict_t%d.cfg" % threads, "TraceCircStrict.tla"]
+    rc, out = sh(cmd, cwd=SPECS, env={"TRACE": trace, "JAVA_TOOL_OPTIONS": "-Xss1g -Xmx6g -Dtlc2.tool.queue.IStateQueue=StateDeque"})
+    shutil.rmtree(meta, ignore_errors=True)
+    m = STRICT_RE.search(out)
+    if not m:
+        raise ToolError("strict trace validation did not complete (rc=%d):\n%s" % (rc, out[-3000:]))
+    states = 0
+    ms = re.search(r"(\d+) states generated, (\d+) distinct states found", out)
+    if ms:
+        states = int(ms.group(2))
+    if m.group(1) == "ACCEPTED":
+        return {"accepted": True, "lines": int(m.group(2)), "matched": int(m.group(2)), "scenario": None, "states": states}
+    return {"accepted": False, "matched": int(m.group(2)), "lines": int(m.group(3)), "scenario": int(m.group(4)), "states": states}
+
+
 def load_known():
     p = os.path.join(ROOT, "known_findings.json")
     if not os.path.exists(p):
